@@ -29,11 +29,11 @@ DESC = {
                 ref="DESIGN.md 3/C04",
                 text="Readers keep value views until their own quiescent state and re-read them; the free hook checks no other thread holds an address inside the block; after each execution live blocks must equal the nodes reachable per dump().",
                 note="ASan cannot see reads of recycled memory; the hold-set monitor covers exactly the API-level promise (value bytes)."),
-    "C05": dict(engine="qsbr_conc", technique="trace-rule monitor (grace-period rule on free notifications) + reference oracle under ASan, serialized scheduler with state-aware action selection; valgrind memcheck on the release code path",
+    "C05": dict(engine="qsbr_conc", technique="trace-rule monitor (grace-period rule on free notifications) + reference oracle under ASan, serialized scheduler with state-aware action selection; valgrind memcheck on the release code path; free-running RCU-style stress under ThreadSanitizer (memory-order edges) and ASan",
                 ref="DESIGN.md 3/C05",
                 text="Every free of a retired block is checked against the set of threads registered at request time that have not been through quiescent/pause/exit since; harness objects carry canaries and are dereferenced by reference holders.",
                 note="Boundaries of the rule are taken on the permissive side (call/return stamps); schedules beyond the directed sweeps are sampled."),
-    "C06": dict(engine="qsbr_conc", technique="exactly-once counter per retired block, lockstep drain rounds counted by the scheduler, thread-count shadow compared at call boundaries",
+    "C06": dict(engine="qsbr_conc", technique="exactly-once counter per retired block, lockstep drain rounds counted by the scheduler, thread-count shadow compared at call boundaries; free-running RCU-style stress under ThreadSanitizer and ASan with exactly-once counters",
                 ref="DESIGN.md 3/C06",
                 text="Each retired pointer's free notifications are counted (0->1 only), a drain phase in lockstep rounds bounds the delay to three rounds, the reported thread count is compared with a shadow count whenever no membership change is in flight.",
                 note="Three-round bound is checked in drain phases and steady-state episodes only, as the property words it."),
